@@ -627,7 +627,7 @@ def _scratch() -> str:
 
 def observe(spec: Dict[str, Any], mode: str, variant: str = "run", fault: Optional[Dict[str, Any]] = None,
             delays: Optional[Dict[str, float]] = None, timeout: float = 40.0) -> Dict[str, Any]:
-    """mode 'T' | 'M'; variant 'run' | 'stream' | 'abandon'; fault {'kind': calc|upload|result|prepare|send|artifacts|finaldrop|
+    """mode 'T' | 'M'; variant 'run' | 'stream' | 'abandon' | 'abandon:<k>' (close the stream after k items); fault {'kind': calc|upload|result|prepare|send|artifacts|finaldrop|
     workerdrop, 'sid': int}.  Returns the raw records, the plan and the outcome."""
     from mloda.user import ParallelizationMode
     logging.disable(logging.CRITICAL)
@@ -674,9 +674,12 @@ def observe(spec: Dict[str, Any], mode: str, variant: str = "run", fault: Option
                 for _ in sess.stream_run(parallelization_modes=modes, **kw):
                     pass
             else:
+                # "abandon" / "abandon:k": the consumer takes k items (default 1), then closes the generator
+                k_items = int(variant.split(":")[1]) if ":" in variant else 1
                 g = sess.stream_run(parallelization_modes=modes, **kw)
                 try:
-                    next(g)
+                    for _ in range(k_items):
+                        next(g)
                 except StopIteration:
                     pass
                 g.close()
@@ -829,6 +832,7 @@ def build_history(ob: Dict[str, Any]) -> Dict[str, Any]:
     pending_visit: Optional[int] = None      # ts of a visit that has produced no label yet
     polled = False
     body_crash = False
+    received = 0                             # items that left compute_stream (the consumer got them)
 
     def close_visit(ts: int) -> None:
         nonlocal pending_visit, polled
@@ -917,6 +921,9 @@ def build_history(ob: Dict[str, Any]) -> Dict[str, Any]:
             if not r["ok"]:
                 body_crash = True
         elif k == "yield":
+            if state == "yield":
+                emit(ts, ("ONext",))              # the next item of the same drain (no loop head in between)
+            received += 1
             state = "yield"
         elif k == "abandon":
             emit(ts, ("OAbandon",))
@@ -964,7 +971,7 @@ def build_history(ob: Dict[str, Any]) -> Dict[str, Any]:
         xk = "XNone"
     # OHead(exit) labels carry the value decided by the outcome; the model recomputes it
     return {"hist": hist, "exit": xk, "wof": wof, "wdrop": wdrop, "children": children, "wfail": wfail,
-            "keys_left": bool(ob["keys_left"]), "n_workers": len(widx) if mode == "M" else len({l[1] for l in hist if l[0] == "OJoin"})}
+            "keys_left": bool(ob["keys_left"]), "received": received, "n_workers": len(widx) if mode == "M" else len({l[1] for l in hist if l[0] == "OJoin"})}
 
 
 def _in_poll(recs: List[Dict[str, Any]], i: int) -> bool:
@@ -1017,7 +1024,7 @@ def _fix_registers(labels: List[Tuple[Tuple[Any, ...], Dict[str, Any], int]]) ->
 # ----------------------------------------------------------------------------------------------------------------------
 def cq_label(l: Tuple[Any, ...]) -> str:
     k = l[0]
-    if k in ("OHead", "OVisit", "OEndScan", "OResume", "OAbandon", "OClose", "OSendFail"):
+    if k in ("OHead", "OVisit", "OEndScan", "OResume", "OAbandon", "OClose", "OSendFail", "ONext"):
         return k
     if k == "OPoll":
         return "OPoll " + cq_list(f"({cq_nat(w)}, {('RDone ' + cq_nat(m[1])) if m[0] == 'RDone' else 'RDropComplete'})" for w, m in l[1])
@@ -1042,7 +1049,7 @@ def cq_case(plan: Dict[str, Any], mode: str, stream: bool, h: Dict[str, Any]) ->
             f"pc_children := {al(h['children'], lambda v: cq_list(cq_nat(x) for x in v))}; "
             f"pc_wfail := {al(h['wfail'], lambda v: 'Some ' + ('CCalc' if v == 'calc' else 'CUpload'))}; "
             f"pc_hist := {cq_list(cq_label(l) for l in h['hist'])}; pc_exit := {h['exit'] if h['exit'] != 'XNone' else 'XNormal'}; "
-            f"pc_keys_left := {cq_bool(h['keys_left'])} |}}")
+            f"pc_keys_left := {cq_bool(h['keys_left'])}; pc_received := {cq_nat(h['received'])} |}}")
 
 
 # ----------------------------------------------------------------------------------------------------------------------
@@ -1084,7 +1091,7 @@ def judge(ob: Dict[str, Any], h: Dict[str, Any]) -> List[str]:
     kind = (ob["fault"] or {}).get("kind")
     if ob["status"] == "hang":
         bad.append("the call did not return within the watchdog")
-    if kind in ("calc", "upload") and h["wfail"] and ob["status"] == "ok" and ob["variant"] != "abandon":
+    if kind in ("calc", "upload") and h["wfail"] and ob["status"] == "ok" and not ob["variant"].startswith("abandon"):
         bad.append(f"a worker failed on step(s) {sorted(h['wfail'])} but the call returned normally (failure lost)")
     if kind not in ("artifacts",) and ob["procs_left"]:
         bad.append(f"{ob['procs_left']} worker process(es) alive after the call")
@@ -1126,7 +1133,7 @@ def check(rep_prefix: str, tier: str, seed: int, n_specs: Optional[int] = None, 
     dis: List[Dict[str, Any]] = []
     info: Dict[str, Any] = {"specs": len(specs), "runs": {"T": 0, "M": 0}, "variants": {}, "faults": {}, "fault_triggered": {},
                             "exit": {}, "hist_len": [], "idle_scans_dropped": 0, "timeouts_5s": 0, "requeues": 0,
-                            "stale_drop_complete_runs": 0, "workers": [], "infra_retries": 0, "infra_retry_leaked_procs": 0}
+                            "stale_drop_complete_runs": 0, "items_received": 0, "workers": [], "infra_retries": 0, "infra_retry_leaked_procs": 0}
     t_start = time.time()
     budget = 460.0 if big else 42.0
 
@@ -1173,7 +1180,7 @@ def check(rep_prefix: str, tier: str, seed: int, n_specs: Optional[int] = None, 
         fg = [s["sid"] for s in plan["steps"] if s["kind"] == "FG"]
         anys = [s["sid"] for s in plan["steps"]]
         # THREADING: fault-free in three variants, then one fault per crash point that exists in THREADING
-        for variant in ("run", "stream", "abandon"):
+        for variant in ("run", "stream", "abandon") + (("abandon:2",) if foc["mp_abandon"] else ()):
             one(spec, "T", variant, None)
         tf = [f for f in ({"kind": "calc", "sid": rng.choice(fg)}, {"kind": "result", "sid": rng.choice(fg)},
                           {"kind": "prepare", "sid": rng.choice(anys)}, {"kind": "artifacts"}) if f["kind"] in foc["tf"]]
@@ -1199,8 +1206,15 @@ def check(rep_prefix: str, tier: str, seed: int, n_specs: Optional[int] = None, 
                 mp_left -= 1
             n_mp_specs += 1
             if foc["mp_abandon"] and mp_left > 0 and (si % 5 == 0 if big else n_mp_specs == 1):
-                one(spec, "M", "abandon", None)
+                one(spec, "M", rng.choice(["abandon", "abandon:2"]), None)
                 mp_left -= 1
+    # a stream closed in the MIDDLE of a drain: four sibling groups that finish together (same delay) are collected in one scan
+    if foc["mp_abandon"]:
+        mspec, mdel = _multi_drain_spec()
+        for kk in ((1, 2, 3) if big else (1, 3)):
+            one(mspec, "T", f"abandon:{kk}", None, mdel)
+        one(mspec, "T", "stream", None, mdel)
+        one(mspec, "M", "abandon:2", None, mdel)
     # the slow special cases: worker-side drop crash (5 s stall) and the late DROP_COMPLETE run (the witness of the former finding
     # C06-mp-stale-drop-complete, fixed:10693fe; ~10 s): nothing fails in it, it must return its three results
     if "workerdrop" in foc["slow"]:
@@ -1227,15 +1241,20 @@ def check(rep_prefix: str, tier: str, seed: int, n_specs: Optional[int] = None, 
             info["fault_triggered"][fk] = info["fault_triggered"].get(fk, 0) + 1
         if any(l[0] == "OPoll" and any(m[0] == "RDropComplete" for _, m in l[1]) for l in h["hist"]):
             info["stale_drop_complete_runs"] += 1
+        info["items_received"] += h["received"]
     bad: List[int] = []
     if terms:
         bad, ci = vlib.run_cases(rep_prefix, "worker_proto", REQ, "chk_proto", terms, case_type="pcase", shard=25)
         info["coq"] = ci
+        ab = [i for i, r in enumerate(runs) if r["ob"]["variant"].startswith("abandon") and i not in bad]
+        info["abandoned_streams"] = len(ab)
+        info["abandoned_mid_drain"], info["results_lost_by_abandoning"] = _undelivered_counts(rep_prefix, [terms[i] for i in ab])
     for k in bad:
         ob, h = runs[k]["ob"], runs[k]["h"]
         where = _diagnose(rep_prefix, terms[k])
         dis.append({"stage": "model", "what": f"observed {ob['mode']}/{ob['variant']} history (fault {ob['fault'] or None}, outcome {h['exit']}, "
-                                              f"keys left {h['keys_left']}) is not a trace of Model/Worker.v ending with that outcome: {where}",
+                                              f"keys left {h['keys_left']}, {h['received']} item(s) received by the consumer) is not a trace of "
+                                              f"Model/Worker.v ending with that outcome: {where}",
                     "case": _case_of(runs[k])})
     for r in runs:
         ob, h = r["ob"], r["h"]
@@ -1289,6 +1308,28 @@ def replay_main(r: Dict[str, Any], prop: str) -> int:
     stop_flight_server()
     print(json.dumps({"props_worker_ok": pw.ok, **res}, indent=1, default=str))
     return 0 if (pw.ok and res["model_accepts"] and not res["judge"]) else 1
+
+
+def _undelivered_counts(rep_prefix: str, terms: List[str]) -> Tuple[int, int]:
+    """(number of abandoned streams in which the consumer closed the generator in the MIDDLE of a drain, results lost that way) as the
+    model computes them from the observed histories (Model/Worker.v received_proto)."""
+    if not terms:
+        return 0, 0
+    import re
+    out = vlib.coq_eval(rep_prefix, "worker_proto_undelivered", REQ,
+                        "Definition ks : list pcase := [" + ";\n".join(terms) + "].\n"
+                        "Eval vm_compute in (map (fun k => match received_proto k with Some (_, u) => u | None => 0 end) ks).")
+    m = re.search(r"=\s*\[(.*?)\]\s*:\s*list nat", out, re.S)
+    us = [int(x) for x in re.findall(r"\d+", m.group(1))] if m else []
+    return sum(1 for u in us if u > 0), sum(us)
+
+
+def _multi_drain_spec() -> Tuple[Dict[str, Any], Dict[str, float]]:
+    """Four requested root groups (one object each - sibling groups on ONE object would conflict in THREADING, known domain
+    C06-unordered-conflicting-steps), each sleeping the same 60 ms: their results arrive within one or two loop iterations, so a
+    drain of compute_stream holds several items (the consumer can close it mid-drain)."""
+    groups = [{"name": f"R{i}", "kind": "root", "cfw": "PyArrowTable", "cols": {f"a{i}": [i + 1, i + 2, i + 3]}} for i in range(4)]
+    return {"groups": groups, "request": [f"a{i}" for i in range(4)]}, {f"R{i}": 0.06 for i in range(4)}
 
 
 def _drop_all_spec() -> Dict[str, Any]:
@@ -1354,11 +1395,11 @@ def _diagnose(rep_prefix: str, term: str) -> str:
     try:
         out = vlib.coq_eval(rep_prefix, "worker_proto_diag", REQ,
                             f"Definition k : pcase := {term}.\nEval vm_compute in (diag_proto k, match exec (cfg_of k) pinit (pc_hist k) with "
-                            "Some st => Some (pc st, flight st) | None => None end).")
+                            "Some st => Some (pc st, flight st, received_proto k) | None => None end).")
         import re
         m = re.search(r"=\s*\((.*?)\)\s*:\s", out, re.S)
         txt = " ".join((m.group(1) if m else out[-300:]).split())
-        return "model says (first label not enabled, final pc/flight) = " + txt
+        return "model says (first label not enabled, final pc/flight/(received, undelivered)) = " + txt
     except Exception as e:  # noqa: BLE001
         return f"(diagnosis failed: {str(e)[:120]})"
 
